@@ -147,7 +147,7 @@ theorem known_hasCtor (P : Profile) (hwf : ProfileWF P = true) (g : Nat) (h : P.
   have hm := msg?_wf P hwf g pm hpm
   unfold msgWF at hm
   simp only [Bool.and_eq_true, Bool.or_eq_true, Bool.not_eq_true'] at hm
-  have := hm.1.1.1.1.1.1.2
+  have := hm.1.1.1.1.1.1.1.1.2
   rcases this with h1 | h1
   · rw [hk] at h1; cases h1
   · exact ⟨pm, hpm, h1.2⟩
@@ -162,7 +162,7 @@ theorem getField_known (P : Profile) (hwf : ProfileWF P = true) (g n : Nat) (pf 
       have hm := msg?_wf P hwf g pm hpm
       unfold msgWF at hm
       simp only [Bool.and_eq_true, Bool.or_eq_true, Bool.not_eq_true'] at hm
-      have := hm.1.1.1.1.1.1.1
+      have := hm.1.1.1.1.1.1.1.1.1
       refine ⟨?_, by simpa using hmem.2⟩
       unfold Profile.known
       rw [hpm]
